@@ -1050,6 +1050,121 @@ Proof.
 Qed.
 
 (* ------------------------------------------------------------------ *)
+(* register_resource on a live system: [reregister]                     *)
+
+Lemma aget_app_None {A} (m : list (Z * A)) k v k' :
+  aget m k = None -> aget (m ++ [(k, v)]) k' = if Z.eqb k k' then Some v else aget m k'.
+Proof.
+  induction m as [|[a b] m IH]; simpl; intros H.
+  - reflexivity.
+  - destruct (Z.eqb a k) eqn:E; [discriminate|].
+    destruct (Z.eqb a k') eqn:E'.
+    + destruct (Z.eqb k k') eqn:E2; auto. lia.
+    + auto.
+Qed.
+
+Lemma fresh_key_bound s : retired_from <= fresh_key s /\
+  forall r l, In (r, l) (resources s) -> r < fresh_key s.
+Proof.
+  unfold fresh_key. induction (resources s) as [|[a b] m IH]; simpl.
+  - split; [lia|tauto].
+  - destruct IH as [B I]. split; [lia|].
+    intros r l [H|H]. { inversion H; subst. lia. }
+    specialize (I r l H). lia.
+Qed.
+
+Lemma fresh_key_unused s : get_lock s (fresh_key s) = None.
+Proof.
+  unfold get_lock. destruct (aget (resources s) (fresh_key s)) as [l|] eqn:E; auto.
+  apply aget_In in E. apply fresh_key_bound in E. lia.
+Qed.
+
+Lemma aget_map_ctx (f : ctx -> ctx) (m : list (Z * ctx)) o :
+  aget (map (fun oc : Z * ctx => (fst oc, f (snd oc))) m) o = option_map f (aget m o).
+Proof.
+  induction m as [|[a b] m IH]; simpl; auto.
+  destruct (Z.eqb a o); auto.
+Qed.
+
+Lemma fresh_lock_ok pre : lock_ok (fresh_lock pre).
+Proof. reflexivity. Qed.
+
+Lemma reregister_active s r pre : active (reregister s r pre) = active s.
+Proof.
+  unfold reregister. destruct (get_lock s r) as [l|]; [destruct (l_owner l)|]; reflexivity.
+Qed.
+
+Lemma reregister_wf s r pre : WF s -> WF (reregister s r pre).
+Proof.
+  intros W. unfold reregister. destruct (get_lock s r) as [l|] eqn:Hl.
+  - destruct (l_owner l) as [ow|] eqn:Ho.
+    + (* the replaced lock is held: it moves to a retired key, the contexts follow *)
+      set (k := fresh_key s).
+      pose proof (fresh_key_unused s) as Fk. fold k in Fk.
+      assert (Nk : k <> r) by (intros ->; congruence).
+      assert (GL : forall x, get_lock (set_ctxs (set_resources s (aset (resources s) r (fresh_lock pre) ++ [(k, l)]))
+                                 (map (fun oc : Z * ctx => (fst oc, rename_acq r k (snd oc))) (ctxs s))) x
+                   = if Z.eqb k x then Some l else if Z.eqb r x then Some (fresh_lock pre) else get_lock s x).
+      { intros x. unfold get_lock. cbn [resources set_ctxs set_resources].
+        rewrite aget_app_None.
+        - destruct (Z.eqb k x); auto. apply aget_aset.
+        - rewrite aget_aset. destruct (Z.eqb r k) eqn:E; [lia|]. exact Fk. }
+      assert (GC : forall o, get_ctx (set_ctxs (set_resources s (aset (resources s) r (fresh_lock pre) ++ [(k, l)]))
+                                 (map (fun oc : Z * ctx => (fst oc, rename_acq r k (snd oc))) (ctxs s))) o
+                   = option_map (rename_acq r k) (get_ctx s o)).
+      { intros o. unfold get_ctx. cbn [ctxs set_ctxs]. apply aget_map_ctx. }
+      constructor.
+      * intros x l0. rewrite GL. destruct (Z.eqb k x).
+        { intros X; inversion X; subst. eapply wf_lock; eauto. }
+        destruct (Z.eqb r x). { intros X; inversion X; subst. apply fresh_lock_ok. }
+        apply (wf_lock s W).
+      * intros x l0 o. rewrite GL, GC. cbn [active set_ctxs set_resources].
+        destruct (Z.eqb k x) eqn:Ek.
+        { intros X Hx. inversion X; subst l0.
+          destruct (wf_own s W r l o Hl Hx) as (A & c & Hc & Hin). split; auto.
+          exists (rename_acq r k c). rewrite Hc. split; auto.
+          cbn [rename_acq c_set_acq c_acq]. apply in_map_iff. exists r. rewrite Z.eqb_refl. split; auto. lia. }
+        destruct (Z.eqb r x) eqn:Er. { intros X; inversion X; subst. discriminate. }
+        intros X Hx. destruct (wf_own s W x l0 o X Hx) as (A & c & Hc & Hin). split; auto.
+        exists (rename_acq r k c). rewrite Hc. split; auto.
+        cbn [rename_acq c_set_acq c_acq]. apply in_map_iff. exists x.
+        destruct (Z.eqb x r) eqn:E2; [lia|]. auto.
+      * intros o A. rewrite GC. destruct (wf_act s W o A) as (c & ->). simpl. eauto.
+    + (* the replaced lock is free: dropped *)
+      constructor.
+      * intros x l0. rewrite get_lock_put_lock. destruct (Z.eqb r x).
+        { intros X; inversion X; subst. apply fresh_lock_ok. } apply (wf_lock s W).
+      * intros x l0 o. rewrite get_lock_put_lock, get_ctx_put_lock, active_put_lock.
+        destruct (Z.eqb r x). { intros X; inversion X; subst. discriminate. } apply (wf_own s W).
+      * intros o. rewrite active_put_lock, get_ctx_put_lock. apply (wf_act s W).
+  - (* a new id *)
+    assert (GL : forall x, get_lock (set_resources s (resources s ++ [(r, fresh_lock pre)])) x
+                 = if Z.eqb r x then Some (fresh_lock pre) else get_lock s x).
+    { intros x. unfold get_lock. cbn [resources set_resources]. now apply aget_app_None. }
+    constructor.
+    + intros x l0. rewrite GL. destruct (Z.eqb r x).
+      { intros X; inversion X; subst. apply fresh_lock_ok. } apply (wf_lock s W).
+    + intros x l0 o. rewrite GL. destruct (Z.eqb r x). { intros X; inversion X; subst. discriminate. }
+      apply (wf_own s W).
+    + apply (wf_act s W).
+Qed.
+
+(* the registered lock under a (re-)registered id is free *)
+Lemma reregister_free s r pre : registered r = true -> owner (reregister s r pre) r = None.
+Proof.
+  intros R. unfold owner, reregister. destruct (get_lock s r) as [l|] eqn:Hl.
+  - destruct (l_owner l) eqn:Ho.
+    + pose proof (fresh_key_unused s) as Fk. pose proof (fresh_key_bound s) as [B _].
+      unfold registered in R. unfold get_lock. cbn [resources set_ctxs set_resources].
+      rewrite aget_app_None.
+      * destruct (Z.eqb (fresh_key s) r) eqn:E; [lia|]. now rewrite aget_aset_eq.
+      * rewrite aget_aset. destruct (Z.eqb r (fresh_key s)) eqn:E; [lia|]. exact Fk.
+    + now rewrite get_lock_put_lock, Z.eqb_refl.
+  - unfold get_lock. cbn [resources set_resources]. rewrite aget_app_None by exact Hl.
+    now rewrite Z.eqb_refl.
+Qed.
+
+(* ------------------------------------------------------------------ *)
 (* the step API                                                         *)
 
 Lemma is_active_In s o : is_active s o = true <-> In o (active s).
@@ -1082,6 +1197,7 @@ Proof.
   - destruct (get_lock s r) as [l|] eqn:Hl; simpl; auto.
     destruct (l_wait l) as [|x t]; simpl; auto.
     eapply wf_put_lock_core; eauto.
+  - now apply reregister_wf.
 Qed.
 
 (* ------------------------------------------------------------------ *)
@@ -1494,6 +1610,12 @@ Qed.
 Lemma prio_only_wfbuts xs s s' : prio_only s s' -> WFbuts xs s -> WFbuts xs s'.
 Proof. intros P W. unfold WFbuts in *. eapply prio_only_wf; [apply prio_only_pluss; eauto | auto]. Qed.
 
+Lemma reregister_pluss xs s r pre : reregister (acts_plus xs s) r pre = acts_plus xs (reregister s r pre).
+Proof.
+  unfold reregister, acts_plus. rewrite get_lock_set_active.
+  destruct (get_lock s r) as [l|]; [destruct (l_owner l)|]; reflexivity.
+Qed.
+
 Lemma fstep_wfbuts xs w s a : WFbuts xs s -> WFbuts xs (fst (fstep current w s a)).
 Proof.
   intros W. destruct a; cbn [fstep].
@@ -1521,6 +1643,7 @@ Proof.
     unfold WFbuts in *.
     change (WF (put_lock (acts_plus xs s) r (mkLock (l_owner l) (l_prio l) (l_hold l) (l_preempt l) t))).
     eapply wf_put_lock_core; eauto.
+  - cbn [fst]. unfold WFbuts in *. rewrite <- reregister_pluss. now apply reregister_wf.
 Qed.
 
 Lemma run_work_wfbuts xs w acts : forall s, WFbuts xs s -> WFbuts xs (fst (run_work current w s acts)).
